@@ -6,6 +6,8 @@ spec -> TLC:   spec/mc/MC_C17.tla: for every generated failing program the struc
 spec -> impl:  each failing program laid out with varied separators (LF, CRLF, CR, tabs, blank lines, multi-byte text
                and comments in front, trailing lines), after 0-2 earlier sources: last_err_location() must name the
                right source, quote the failing token's exact byte range, its true line/column and its line;
+               spec/mc/MC_C17D.tla: the same for failures while the source is still being built (meta blocks, immediate
+               words) and in / right after injected and included sources;
                pretty_error() must not panic.  lex::token_location replayed in isolation on every class text."""
 import json, os
 import vlib
@@ -36,6 +38,18 @@ def run(tier, seed):
         for m in read_ndjson(mm):
             rep.violation("loc:" + m["text"], f"source {json.dumps(m['text'])}: {m['why'][0]}", m)
         os.remove(outf)
+    # failures while a source is still being built (meta blocks, immediate words) and in nested sources (~) , include)
+    outf = os.path.join(wd, "MC_C17D.out")
+    res = run_tlc("mc/MC_C17D", "SPECIFICATION Spec\nINVARIANT Export\nCHECK_DEADLOCK FALSE\n", wd, name="MC_C17D", timeout=600, to_file=outf)
+    tlc_must_pass(res, "MC_C17D")
+    states += res["distinct"]; trans += res["generated"]
+    mm = os.path.join(wd, "nested.mm.ndjson")
+    scratch = workdir(PID, "files")
+    sn = xv_json(["locnest-replay", outf, mm, "3" if tier == "quick" else "8", scratch])
+    progs += sn["programs"]; layouts += sn["layouts"]
+    for m in read_ndjson(mm):
+        rep.violation("locnest:" + m["text"], f"[{m['kind']}] source {json.dumps(m['text'])}: {m['why'][0]}", m)
+    os.remove(outf)
     outf = os.path.join(wd, "MC_C17L.out")
     res = run_tlc("mc/MC_C17L", "SPECIFICATION Spec\nCONSTANTS\n  MaxLen = %d\nINVARIANT Sane\nINVARIANT Export\nCHECK_DEADLOCK FALSE\n" % LOCLEN[tier], wd, name="MC_C17L", timeout=3000, to_file=outf)
     tlc_must_pass(res, "MC_C17L")
@@ -52,9 +66,10 @@ def run(tier, seed):
     rep.add(states=states, transitions=trans, traces_validated_against_impl=layouts + sl["texts"], evaluations=layouts + sl["texts"], distinct_nontrivial=progs,
             exhaustive=True,
             rule=f"TLC: every failing program of fragments {FRAGS[tier]} (run-time failures at top level, in branches, loops and called definitions; unknown words) "
-                 f"with its ground-truth failing token, 3 layouts each; location function over all prefixes of up to {LOCLEN[tier]} classes x 4 tails")
+                 f"with its ground-truth failing token, 3 layouts each; {sn['programs']} constructions with failures at build time (meta block, called from / loop in a meta block, "
+                 f"immediate word) and in or right after injected (~)) and included text; location function over all prefixes of up to {LOCLEN[tier]} classes x 4 tails")
     rep.assumptions += ["a two-token construct (`local x`, `var x`, `! x`) may be blamed through either token",
-                        "errors at the end of input (unbalanced structures), inside meta blocks, injected (~)) and included text are not yet covered by the enumeration"]
+                        "errors reported at the end of input (unbalanced structures) are not judged"]
     return rep.finish()
 
 
